@@ -6,26 +6,27 @@
     float) that meet every hypothesis of C20_gen_wf_partial and C20_gen_decodes. *)
 From Coq Require Import List NArith Bool String.
 From ApiFu Require Import Base.Sexp Gen.GoTypes Gen.ClientGenModel Gen.DecodeModel Gen.ClientGenSpec
-     Gen.ClientGenMain Gen.ClientGenWitness.
+     Gen.ClientGenMain Gen.ClientGenWitness Gen.ClientGenDeclSafe Gen.LoadSchemaModel Gen.LoadSchemaProofs Gen.ClientGenClauses.
 Import ListNotations.
 Open Scope string_scope.
 
 Example c20_hypotheses_hold :
-  env ex_schema ex_doc = true /\ excl_member_clash ex_schema ex_doc = false /\ excl_decl_clash ex_schema ex_doc = false /\
+  env ex_schema ex_doc = true /\ schema_loadable ex_schema = true /\
+  excl_member_clash ex_schema ex_doc = false /\ decl_safe ex_schema ex_doc = true /\
   In ex_op_linked (d_ops ex_doc) /\ op_name ex_op_linked = Some (bs "Q") /\
   conforms ex_schema ex_op_linked ex_resp = true.
 Proof. repeat split; try (vm_compute; reflexivity). left. reflexivity. Qed.
 
 (** the theorems instantiated: a program is generated, is well formed, and decodes the response *)
 Example c20_instance :
-  exists p, generate no_quirks ex_schema (doc_valid ex_schema ex_doc) ex_doc = GOk p /\ wf_program p = true /\
+  exists p, generate_cli no_quirks ex_schema (doc_valid ex_schema ex_doc) ex_doc = GOk p /\ wf_program p = true /\
     exists n v, (forall fuel, (n <= fuel)%nat -> decode_op p fuel (bs "Q") (json_of ex_resp) = DOk v) /\
                 (forall pl, In pl (leaves v) <-> In pl (expected ex_schema ex_op_linked ex_resp)).
 Proof.
-  destruct c20_hypotheses_hold as (H1 & H2 & H3 & H4 & H5 & H6).
-  destruct (gen_accepts_wf ex_schema ex_doc H1 H2 H3) as [p [Hg Hw]].
+  destruct c20_hypotheses_hold as (H1 & HL & H2 & H3 & H4 & H5 & H6).
+  destruct (cli_accepts_wf ex_schema ex_doc H1 HL H2 H3) as [p [Hg Hw]].
   exists p. split; [exact Hg|]. split; [exact Hw|].
-  apply (gen_decodes ex_schema ex_doc H1 H2 H3 p ex_op_linked (bs "Q") ex_resp Hg H4 H5 H6).
+  apply (cli_decodes ex_schema ex_doc H1 HL H2 H3 p ex_op_linked (bs "Q") ex_resp Hg H4 H5 H6).
 Qed.
 
 (** the instance is not trivial: the response has leaves below fragments of both concrete types *)
@@ -37,4 +38,15 @@ Example c20_instance_nontrivial :
           (expected ex_schema ex_op_linked ex_resp) = true /\
   existsb (fun pl => existsb (fun s => match s with PFrag f => bytes_eqb f (bs "f") | _ => false end) (fst pl))
           (expected ex_schema ex_op_linked ex_resp) = true.
+Proof. repeat split; vm_compute; reflexivity. Qed.
+
+(** LoadSchema: a chain of seven wrappers in mixed order is rebuilt exactly; [T]! and [T!] stay
+    apart; with an eighth wrapper loading fails *)
+Example c20_load_types :
+  let t7 := TNonNull (TList (TNonNull (TList (TList (TNonNull (TList (TNamed (bs "Int")))))))) in
+  let t8 := TList t7 in
+  wrappers t7 = 7%nat /\ load_type ex_schema t7 = Some t7 /\
+  load_type ex_schema (TNonNull (TList (TNamed (bs "User")))) = Some (TNonNull (TList (TNamed (bs "User")))) /\
+  load_type ex_schema (TList (TNonNull (TNamed (bs "User")))) = Some (TList (TNonNull (TNamed (bs "User")))) /\
+  load_type ex_schema t8 = None.
 Proof. repeat split; vm_compute; reflexivity. Qed.
